@@ -47,7 +47,7 @@ func tier(t string) tiers {
 	if t == "thorough" {
 		return tiers{Gen: 120000, Vectors: 24, MaxOut: 512, Budget: 20000, ExtraInputs: 3}
 	}
-	return tiers{Gen: 16000, Vectors: 6, MaxOut: 64, Budget: 5000, ExtraInputs: 2}
+	return tiers{Gen: 40000, Vectors: 6, MaxOut: 64, Budget: 5000, ExtraInputs: 2}
 }
 
 // ---- coin source -------------------------------------------------------------------
@@ -520,7 +520,21 @@ type item struct {
 
 var extraInputs = []string{`null`, `{"a":1,"b":[1,2],"c":{"d":null}}`, `[3,1,[2,{"a":1}],"x",null]`, `5`, `"abc"`}
 
+var (
+	itemsCache    []item
+	itemsCacheKey string
+)
+
+// allItems is memoised: the item list is a pure function of (tier, seed).
 func allItems(tr tiers, seed uint64) []item {
+	key := fmt.Sprint(tr, seed)
+	if itemsCacheKey != key || itemsCache == nil {
+		itemsCache, itemsCacheKey = buildItems(tr, seed), key
+	}
+	return itemsCache
+}
+
+func buildItems(tr tiers, seed uint64) []item {
 	var items []item
 	for _, d := range directed {
 		items = append(items, item{src: d.Src, in: kernel.ValueSpec{JSON: d.In}, origin: "directed"})
